@@ -152,15 +152,20 @@ def audio_defs():
         "audio t5 slice gf 8000 2500",
         "audio nsil cat noise sil",
         "audio silgf cat sil gf",
+        # runs of exactly-zero samples (drop-outs, zero padding) inside and around speech: frames without energy
+        "audio z16 silence 1600",
+        "audio zhead cat z16 head",
+        "audio hz cat head z16",
+        "audio hzh cat hz mid",
     ]
 
 
 AUDIO_LEN = {"gf": 44580, "gff": 57344, "rev": 44580, "clip": 44580, "quiet": 44580, "sil": 16000, "noise": 20000,
              "gf2": 89160, "head": 12000, "mid": 14000, "cut": 21000, "cut20": 20000, "tail": 24580, "t0": 0, "t1": 100, "t2": 410,
-             "t3": 600, "t4": 1100, "t5": 2500, "nsil": 36000, "silgf": 60580}
+             "t3": 600, "t4": 1100, "t5": 2500, "nsil": 36000, "silgf": 60580, "z16": 1600, "zhead": 13600, "hz": 13600, "hzh": 27600}
 AUDIO_WEIGHTS = [("gf", 8), ("rev", 2), ("clip", 2), ("quiet", 1), ("sil", 1), ("noise", 1), ("gf2", 1), ("head", 2),
                  ("mid", 2), ("cut", 3), ("tail", 2), ("t0", 1), ("t1", 1), ("t2", 1), ("t3", 1), ("t4", 1), ("t5", 1),
-                 ("nsil", 1), ("silgf", 1), ("gff", 1)]
+                 ("nsil", 1), ("silgf", 1), ("gff", 1), ("zhead", 1), ("hzh", 1)]
 
 BEAMS = {
     "default": {},
